@@ -57,6 +57,20 @@ class M:
         CB.hit("prepare_xs")
         return v
 
+class Boom:
+    def __deepcopy__(self, memo):
+        raise RuntimeError("this value cannot be copied")
+
+class Tolerant:
+    """a user container that tries to copy its payload and falls back to sharing it"""
+    def __init__(self, payload):
+        self.payload = payload
+    def __deepcopy__(self, memo):
+        try:
+            return Tolerant(copy.deepcopy(self.payload, memo))
+        except RuntimeError:
+            return Tolerant(self.payload)
+
 class UserCopy:
     def __init__(self, payload):
         self.payload = payload
@@ -134,7 +148,7 @@ def primitive_state():
 # operations that copy
 # ------------------------------------------------------------------------------------------------
 OPS = ["ctor_default", "ctor_nested", "ctor_module", "with_module", "with_num_item", "deepcopy_flat", "deepcopy_nested3",
-       "deepcopy_nested_instances", "reset", "protect_direct", "user_deepcopy", "transform_nested"]
+       "deepcopy_nested_instances", "reset", "protect_direct", "user_deepcopy", "transform_nested", "caught_nested_abort"]
 
 
 def do_op(name, st):
@@ -174,6 +188,14 @@ def do_op(name, st):
         assert c.n.payload[0].n is sys
     elif name == "transform_nested":
         st["obj"] = M(n=M()).transform_n(lambda v: [sys, v])
+    elif name == "caught_nested_abort":
+        # an inner protected copy is aborted by an exception that user code CATCHES while the outer protected copy goes on:
+        # the module met later in the outer copy must still be copyable, and the table restored at the end
+        inner, v = M(), M()
+        vars(inner)["n"] = e["Boom"]()  # (placed directly: the constructor itself would already try to copy it)
+        vars(v)["n"] = [e["Tolerant"](inner), sys, {"m": sys}]
+        c = copy.deepcopy(v)
+        assert c.n[1] is sys and c.n[2]["m"] is sys and c.n[0].payload is v.n[0].payload
     else:
         raise ValueError(name)
 
